@@ -190,7 +190,7 @@ func allEncodings() []Enc {
 // ImplementedSet is the result of the pre-pass shared by C01/C05/C14/...
 type ImplementedSet struct {
 	Encs    []Enc    // encodings compared against the model: measured ∩ model-valid
-	Missing []string // pinned but no longer implemented by the tree (C01 violation)
+	Missing []string // pinned, but the tree logged something while executing it: still compared against the model (a tree that really treats it as invalid fails that comparison; mere log noise does not)
 	Extra   []string // implemented by the tree but not pinned / not modelled: totality only
 	Invalid []Enc    // decode paths the tree does not implement
 }
@@ -220,6 +220,7 @@ func implementedSet(c *Ctx) (*ImplementedSet, error) {
 			res.Extra = append(res.Extra, e.Name)
 		case !ok && e.Valid:
 			res.Missing = append(res.Missing, e.Name)
+			res.Encs = append(res.Encs, e)
 		default:
 			res.Invalid = append(res.Invalid, e)
 		}
